@@ -29,7 +29,8 @@ class WeaveError(Exception):
 
 class FnSpec:
     def __init__(self, name, opts):
-        self.name = name
+        self.src_name = name               # the function's name in the source
+        self.name = opts.get('id', name)   # key used in markers / obligation ids (unique within a unit)
         self.opts = opts
         self.props = [p for p in opts.get('props', '').split(',') if p]
         self.impl = opts.get('impl', 'Screen')
@@ -90,6 +91,9 @@ def parse_spec(path):
                 u.name = toks[1]
             elif head == 'prelude':
                 u.preludes.append(toks[1])
+            elif head == 'structpub':
+                for nm in toks[2:]:
+                    u.items.append(('structpub', toks[1], nm))
             elif head in ('struct', 'enum', 'const'):
                 # @struct src/screen.rs CharOpts Cursor ...
                 for nm in toks[2:]:
@@ -363,6 +367,17 @@ def build_unit(spec_path, repo, contracts_dir, shim_table, force_extern=None):
             a, b = s.const(nm)
             out_consts.append(s.text[a:b].strip())
             roundtrip.append((rel, s.text[a:b].strip()))
+        elif kind == 'structpub':
+            # Verus cannot import a struct with non-pub fields transparently; visibility has no run-time meaning,
+            # so the copy handed to Verus gets `pub` on every field (marked, and undone by strip_woven)
+            a, b = s.item('struct', nm)
+            t = s.text[a:b]
+            t2 = re.sub(r'pub\(crate\) ', lambda mm: shim_wrap('vis-pub', mm.group(0), 'pub '), t)
+            t2 = re.sub(r'(?m)^(\s+)(?!pub\b|//|#|/\*@S)([a-z_][a-z0-9_]*\s*:)', lambda mm: mm.group(1) + inline('pub ') + mm.group(2), t2)
+            if strip_woven(t2) != t:
+                raise WeaveError('round-trip mismatch in struct %s' % nm)
+            out_types.append(t2)
+            roundtrip.append((rel, t))
         else:
             a, b = s.item(kind, nm)
             out_types.append(s.text[a:b])
@@ -374,11 +389,13 @@ def build_unit(spec_path, repo, contracts_dir, shim_table, force_extern=None):
     for fs in u.fns:
         rel = fs.opts.get('src', 'src/screen.rs')
         s = src(rel)
-        if 'trait' in fs.opts:
+        if fs.opts.get('keepimpl'):
+            impl_re = r'^impl\b.*\b%s\b' % fs.impl
+        elif 'trait' in fs.opts:
             impl_re = r'^impl %s for %s\b' % (fs.opts['trait'], fs.impl)
-        else:
+        elif True:
             impl_re = fs.opts.get('implre', r'^impl (ParserListener for )?%s\b' % fs.impl)
-        hdr, a, brace, b = s.fn_in_impl(impl_re, fs.name)
+        hdr, a, brace, b = s.fn_in_impl(impl_re, fs.src_name)
         text = s.text[a:b]
         degraded = None
         woven = None
@@ -409,7 +426,7 @@ def build_unit(spec_path, repo, contracts_dir, shim_table, force_extern=None):
             spin += '/*@w<*/#[verifier::loop_isolation(false)]/*@w>*/\n'
         fn_texts.append((fs, '//@FN< %s\n%s%s\n//@FN> %s\n' % (fs.name, spin, woven, fs.name)))
         fn_info[fs.name] = dict(src=rel, line=s.lineno(a), impl=hdr, text=text, props=fs.props, extern=fs.extern,
-                                shims=fs.shims, degraded=degraded)
+                                shims=fs.shims, degraded=degraded, src_name=fs.src_name, implname=fs.impl)
 
     # the round-trip check against the files themselves
     for rel, t in roundtrip:
@@ -432,9 +449,16 @@ def build_unit(spec_path, repo, contracts_dir, shim_table, force_extern=None):
     by_impl = {}
     for fs, woven in fn_texts:
         hdr = ('%s for %s' % (fs.opts['trait'], fs.impl)) if 'trait' in fs.opts else fs.impl
+        if fs.opts.get('keepimpl'):
+            hdr = re.sub(r'\s+', ' ', fn_info[fs.name]['impl'])[len('impl'):].strip()
+            if hdr.startswith('<'):
+                hdr = '\x00' + hdr  # generic parameters follow `impl` directly
         by_impl.setdefault(hdr, []).append(woven)
     for impl, ws in by_impl.items():
-        parts.append('\nimpl %s {\n' % impl)
+        if impl.startswith('\x00'):
+            parts.append('\nimpl%s {\n' % impl[1:])
+        else:
+            parts.append('\nimpl %s {\n' % impl)
         parts.append('\n\n'.join(ws))
         parts.append('\n}\n')
     for r in u.raw_after:
@@ -454,3 +478,6 @@ if __name__ == '__main__':
         sys.exit(2)
     open(out, 'w').write(text)
     print('woven %d functions -> %s' % (len(info), out))
+    for k, v in info.items():
+        if v.get('degraded'):
+            print('DEGRADED (contract assumed, not verified): %s: %s' % (k, v['degraded']))
